@@ -20,6 +20,10 @@ OBLIGATIONS = [
        what='oasis_write_repetition against a reference decoder of the repetition types 1..11: the emitted field denotes exactly the offsets of the repetition (multiset, first instance at the origin), for rectangular / regular lattices and explicit lists with spacings and coordinates of either sign',
        bound='rectangular and regular 2x2, 3x1, 1x3, 2x3; explicit / explicit-x / explicit-y lists of 1..3 entries; values in -5..5; scaling 1',
        variants=[{'KIND': k, 'A': a, 'B': b} for k in (1, 2) for (a, b) in ((2, 2), (3, 1), (1, 3), (2, 3))] + [{'KIND': k, 'A': a} for k in (3, 4, 5) for a in (1, 2, 3)], unwind=12, timeout=600, mem_gb=10, nvec=60),
+    Ob('properties_writer_vs_reference', 'C02/props_wr.c', [P + '17properties_to_oasEPKNS_8PropertyERNS_11OasisStreamERNS_10OasisStateE'], ir='ni', stubs=TOKSTUBS + [P + '4hashEPKc'], rename={'strlen': 'my_strlen1'},
+       what='properties_to_oas against a reference decoder of the PROPERTY record: per property one record with the name as the reference number of the writer\'s name table (one number per distinct name), the values in order - unsigned, signed, real by value, strings as a-/b-/n-string reference by byte class to a string-table entry with exactly those bytes; composes with the reader-side PROPERTY obligations of C04',
+       bound='1 or 2 properties with 4 and 2 values (unsigned, signed != INT64_MIN, reals: any bits, strings of 2 and 1 arbitrary bytes), equal or distinct 1-character names; hash arbitrary',
+       variants=[{'NP': 1, 'SAME': 0}, {'NP': 2, 'SAME': 0}, {'NP': 2, 'SAME': 1}], unwind=16, timeout=600, mem_gb=10, nvec=40),
 ]
 BOUNDS = 'single polygons with 3..5 vertices on a small integer grid; the writer and the reader are decided separately against one reference decoder'
 OUTSIDE = 'the composite write_oas -> read_oas query (no verdict: the record kind is a computed choice, the reader then allocates a symbolic amount); circle detection (transcendental); paths, labels, references, repetitions and properties in OASIS; name tables; CBLOCK compression (zlib) for 9 of 10 levels; validation signatures over whole files; repeated cycles'
